@@ -269,6 +269,10 @@ def _run(w, plan):
                         m.pid, len(rec["live_consumers_at_join"])), sim)
             if run is not None and run.get("stop_fired"):
                 res.violate("C16", "C16:group-request-after-stop:%s" % rec["ptype"], "member %s sent %s after its stop() Deferred had fired" % (m.pid, rec["ptype"]), sim)
+            elif run is not None and run.get("stop_called") and rec["ptype"] in ("JoinGroup", "SyncGroup"):
+                # a member that is leaving does not (re)join: commits, heartbeats that keep the commits valid and the leave
+                # are all that may still go out while stop() waits for its consumers
+                res.violate("C16", "C16:join-or-sync-issued-while-stopping:%s" % rec["ptype"], "member %s sent %s after stop() had been called" % (m.pid, rec["ptype"]), sim)
 
     def _is_running(c):
         try:
